@@ -387,8 +387,9 @@ Proof.
   - exfalso. unfold sticky_finish, balance_finish in SV. cbn [b_end p_res] in SV. exact SV.
 Qed.
 
-(* ---- full statements of the clauses that are not proved; the check evaluates them on every honest chain it runs (monitor)
-   and [preparation_keeps] is the part of them that is proved: only performReassignments ever takes a partition away ---- *)
+(* ---- full statements: leave (proved in ProofsStickyLeave.v), and the general no-pair-swap clause for an arbitrary change of
+   the group, which is proved for an unchanged group, one leave and one join (ProofsStickyJoin2.v) and otherwise evaluated on every
+   honest chain the check runs (monitor); [preparation_keeps] holds for any change ---- *)
 Definition remaining (ms : list member) (leaver : str) : list member := filter (fun m => negb (str_eqb (m_id m) leaver)) ms.
 Definition identical_subscriptions (ms : list member) : Prop :=
   forall m1 m2 t, In m1 ms -> In m2 ms -> (In t (m_topics m1) <-> In t (m_topics m2)).
@@ -399,13 +400,6 @@ Definition sticky_leave_keeps_statement : Prop :=
   valid_plan ms ts p -> kafka_balanced ms p ->
   sticky_plan fuel true o (map (report p g) (remaining ms leaver)) ts = SOk p' ->
   forall m x, m <> leaver -> In x (holds p m) -> In x (holds p' m).
-
-(* when a member joins, no partition moves between old members *)
-Definition sticky_join_no_shuffle_statement : Prop :=
-  forall fuel o ms ts p g newm p', wf_members (newm :: ms) -> wf_topics ts -> identical_subscriptions (newm :: ms) ->
-  m_ud newm = UD [] None -> valid_plan ms ts p -> kafka_balanced ms p ->
-  sticky_plan fuel true o (newm :: map (report p g) ms) ts = SOk p' ->
-  forall m x, In x (holds p m) -> In x (holds p' m) \/ In x (holds p' (m_id newm)).
 
 (* partitions never swap owners pairwise within a topic, whatever changed in the group *)
 Definition sticky_no_pair_swap_statement : Prop :=
